@@ -100,8 +100,15 @@ func C12WarningOrder(n int) {
 // C12WriteIfNeeded: regenerating identical content performs no write; different content is written exactly.
 func C12WriteIfNeeded() {
 	existing := verifChoose("file-exists", 2) == 1
-	oldC := verifStr("old")
-	newC := verifStr("new")
+	// contents: unconstrained symbolic strings, or strings from a small pool (with / without a final newline,
+	// empty) for code that looks inside the contents
+	var oldC, newC string
+	if verifChoose("content-model", 2) == 0 {
+		oldC, newC = verifStr("old"), verifStr("new")
+	} else {
+		pool := []string{"", "a", "a\n", "ab\n", "b", "a\n\n"}
+		oldC, newC = verifOneOf("old-from-pool", pool...), verifOneOf("new-from-pool", pool...)
+	}
 	if existing {
 		verifFsPut("/out/gen.py", oldC)
 	} else {
